@@ -25,9 +25,11 @@
 #include <occa/internal/core/memoryPool.hpp>
 #include <occa/internal/utils/verif.hpp>
 
+#ifndef HSIM_NO_MAIN
 extern "C" __attribute__((used)) const char *__asan_default_options() {
   return "exitcode=77:detect_leaks=0:abort_on_error=0:allocator_may_return_null=1:detect_stack_use_after_return=0";
 }
+#endif
 
 template <class T, int N>
 struct Slots {
@@ -40,7 +42,14 @@ struct Slots {
   void destroy(int i) { if (present[i]) { at(i).~T(); present[i] = false; } }
 };
 
-static const int ND = 3, NM = 10, NP = 3, NK = 3, NS = 3, NH = 4, HBYTES = 256;
+#ifndef HS_ND
+#define HS_ND 3
+#define HS_NM 10
+#define HS_NP 3
+#define HS_NK 3
+#define HS_NS 3
+#endif
+static const int ND = HS_ND, NM = HS_NM, NP = HS_NP, NK = HS_NK, NS = HS_NS, NH = 4, HBYTES = 256;
 static Slots<occa::device, ND> D;
 static Slots<occa::memory, NM> M;
 static Slots<occa::memoryPool, NP> P;
@@ -292,6 +301,7 @@ static void runHistory(const std::vector<std::string> &ops) {
   observe();
 }
 
+#ifndef HSIM_NO_MAIN
 int main(int argc, char **argv) {
   setvbuf(stdout, 0, _IOFBF, 1 << 16);
   // warm-up in the template: initialise libocca once so that every forked run starts from the same image
@@ -327,3 +337,4 @@ int main(int argc, char **argv) {
   }
   return 0;
 }
+#endif
